@@ -132,3 +132,385 @@ def normalise(tree):
         except Exception:
             pass
     return n
+
+
+# =====================================================================================================================
+# Modern-syntax normal form.  Every rewriting below is exact (same values, same exceptions, same order of evaluation):
+#
+#   annotations          def f(a: int = 0) -> str      ==>  def f(a=0)               (annotations are never read in the package)
+#   annotated assignment x: T = e  ==>  x = e ;   a bare `x: T` in a function or plain class body  ==>  pass
+#                        (bodies of @dataclass / NamedTuple / TypedDict classes are left alone: there the annotation IS the field)
+#   f-string             f'a{x!r:>{w}}b'  ==>  'a{!r:>{}}b'.format(x, w)          (both call format(value, spec) left to right)
+#   walrus               if (m := e) is not None: B  ==>  m = e; if m is not None: B   when `m := e` is the first thing the
+#                        test evaluates;  `if A and (m := e) ...: B` without else  ==>  if A: m = e; if m ...: B ;
+#                        while TEST-with-walrus (no else)  ==>  while True: m = e; if not TEST': break; BODY ;
+#                        the same hoisting for plain assignment / expression / return statements
+#   match                literal, dotted-value, or-of-those and wildcard patterns (guards allowed), a final bare capture:
+#                        match s: case 'a': A   case 'b' | 'c' if g: B   case _: C
+#                        ==>  if s == 'a': A  elif s in ('b', 'c') and g: B  else: C      (`s` evaluated once: a temporary unless it
+#                        is a plain name / attribute chain).  None / True / False patterns compare with `is`, as `match` does.
+# =====================================================================================================================
+_RECORD_BASES = {'NamedTuple', 'TypedDict'}
+
+
+def _is_record_class(cls):
+    for d in cls.decorator_list:
+        t = d.func if isinstance(d, ast.Call) else d
+        nm = t.attr if isinstance(t, ast.Attribute) else getattr(t, 'id', '')
+        if nm == 'dataclass':
+            return True
+    for b in cls.bases:
+        nm = b.attr if isinstance(b, ast.Attribute) else getattr(b, 'id', '')
+        if nm in _RECORD_BASES:
+            return True
+    return False
+
+
+def _loc(new, old):
+    ast.copy_location(new, old)
+    ast.fix_missing_locations(new)
+    return new
+
+
+class _Modern(ast.NodeTransformer):
+    def __init__(self):
+        self.count = 0
+        self.tmp = 0
+
+    # ---- annotations -------------------------------------------------------------------------------------------
+    def _strip(self, node):
+        a = node.args
+        for p in a.posonlyargs + a.args + a.kwonlyargs + [x for x in (a.vararg, a.kwarg) if x is not None]:
+            if p.annotation is not None:
+                p.annotation = None
+                self.count += 1
+        if node.returns is not None:
+            node.returns = None
+            self.count += 1
+
+    def visit_FunctionDef(self, node):
+        self._strip(node)
+        self.generic_visit(node)
+        node.body = self._block(node.body)
+        return node
+
+    visit_AsyncFunctionDef = visit_FunctionDef
+
+    def visit_ClassDef(self, node):
+        if _is_record_class(node):
+            return node
+        self.generic_visit(node)
+        return node
+
+    def visit_AnnAssign(self, node):
+        self.generic_visit(node)
+        self.count += 1
+        if node.value is None:
+            return _loc(ast.Pass(), node)
+        return _loc(ast.Assign(targets=[node.target], value=node.value), node)
+
+    # ---- f-strings ---------------------------------------------------------------------------------------------
+    def visit_JoinedStr(self, node):
+        def inner(js):
+            # the expressions inside the fields are rewritten; a format specification (itself a JoinedStr node) is kept for `spec`
+            for v in js.values:
+                if isinstance(v, ast.FormattedValue):
+                    v.value = self.visit(v.value)
+                    if isinstance(v.format_spec, ast.JoinedStr):
+                        inner(v.format_spec)
+        inner(node)
+        args = []
+
+        def field(v):
+            args.append(v.value)
+            s = '{'
+            if v.conversion not in (-1, None):
+                s += '!' + chr(v.conversion)
+            if v.format_spec is not None:
+                s += ':' + spec(v.format_spec)
+            return s + '}'
+
+        def spec(js):
+            out = ''
+            for v in (js.values if isinstance(js, ast.JoinedStr) else [js]):
+                if isinstance(v, ast.Constant):
+                    out += str(v.value)
+                elif isinstance(v, ast.FormattedValue):
+                    out += field(v)
+                else:
+                    raise ValueError('format spec')
+            return out
+
+        text = ''
+        try:
+            for v in node.values:
+                if isinstance(v, ast.Constant):
+                    text += str(v.value).replace('{', '{{').replace('}', '}}')
+                elif isinstance(v, ast.FormattedValue):
+                    text += field(v)
+                else:
+                    return node
+        except ValueError:
+            return node
+        self.count += 1
+        if not args:
+            return _loc(ast.Constant(value=''.join(str(v.value) for v in node.values)), node)
+        return _loc(ast.Call(func=ast.Attribute(value=ast.Constant(value=text), attr='format', ctx=ast.Load()), args=args, keywords=[]), node)
+
+    # ---- walrus ------------------------------------------------------------------------------------------------
+    @staticmethod
+    def _first(expr):
+        """the NamedExpr that is evaluated before anything else with an effect in `expr`, with its parent and field, or None"""
+        parent, field, idx, e = None, None, None, expr
+        while True:
+            if isinstance(e, ast.NamedExpr):
+                return parent, field, idx, e
+            if isinstance(e, ast.Compare):
+                parent, field, idx, e = e, 'left', None, e.left
+            elif isinstance(e, ast.BoolOp):
+                parent, field, idx, e = e, 'values', 0, e.values[0]
+            elif isinstance(e, ast.UnaryOp):
+                parent, field, idx, e = e, 'operand', None, e.operand
+            elif isinstance(e, ast.BinOp):
+                parent, field, idx, e = e, 'left', None, e.left
+            elif isinstance(e, (ast.Attribute, ast.Subscript, ast.Starred)):
+                parent, field, idx, e = e, 'value', None, e.value
+            elif isinstance(e, ast.IfExp):
+                parent, field, idx, e = e, 'test', None, e.test
+            elif isinstance(e, (ast.Tuple, ast.List)) and e.elts:
+                parent, field, idx, e = e, 'elts', 0, e.elts[0]
+            elif isinstance(e, ast.Call):
+                if isinstance(e.func, ast.Name):
+                    if not e.args:
+                        return None
+                    parent, field, idx, e = e, 'args', 0, e.args[0]
+                else:
+                    parent, field, idx, e = e, 'func', None, e.func
+            else:
+                return None
+
+    @staticmethod
+    def _put(parent, field, idx, new):
+        if idx is None:
+            setattr(parent, field, new)
+        else:
+            getattr(parent, field)[idx] = new
+
+    def _hoist_first(self, holder, attr):
+        """holder.attr is an expression: hoist its first-evaluated walrus; -> list of assignment statements (possibly empty)"""
+        out = []
+        while True:
+            e = getattr(holder, attr)
+            if e is None:
+                return out
+            if isinstance(e, ast.NamedExpr):
+                out.append(_loc(ast.Assign(targets=[ast.Name(id=e.target.id, ctx=ast.Store())], value=e.value), e))
+                setattr(holder, attr, _loc(ast.Name(id=e.target.id, ctx=ast.Load()), e))
+                self.count += 1
+                continue
+            hit = self._first(e)
+            if hit is None:
+                return out
+            parent, field, idx, w = hit
+            out.append(_loc(ast.Assign(targets=[ast.Name(id=w.target.id, ctx=ast.Store())], value=w.value), w))
+            self._put(parent, field, idx, _loc(ast.Name(id=w.target.id, ctx=ast.Load()), w))
+            self.count += 1
+
+    def _block(self, block):
+        out = []
+        for st in block:
+            out.extend(self._stmt(st))
+        return out
+
+    def _stmt(self, st):
+        if isinstance(st, (ast.FunctionDef, ast.AsyncFunctionDef, ast.ClassDef)):
+            return [st]
+        for f_ in ('body', 'orelse', 'finalbody'):
+            blk = getattr(st, f_, None)
+            if isinstance(blk, list) and blk and isinstance(blk[0], ast.stmt):
+                setattr(st, f_, self._block(blk))
+        if isinstance(st, ast.Try):
+            for h in st.handlers:
+                h.body = self._block(h.body)
+        if isinstance(st, ast.Match):
+            for c in st.cases:
+                c.body = self._block(c.body)
+            new = self._match(st)
+            return new if new is not None else [st]
+        if isinstance(st, ast.If):
+            pre = self._hoist_first(st, 'test')
+            # if A and (m := e) and REST: BODY   (no else)
+            if not st.orelse and isinstance(st.test, ast.BoolOp) and isinstance(st.test.op, ast.And) and \
+                    any(isinstance(n, ast.NamedExpr) for n in ast.walk(st.test)):
+                vals = st.test.values
+                k = next((i for i, v in enumerate(vals) if any(isinstance(n, ast.NamedExpr) for n in ast.walk(v))), None)
+                if k and not any(isinstance(n, ast.NamedExpr) for v in vals[:k] for n in ast.walk(v)):
+                    head = vals[0] if k == 1 else _loc(ast.BoolOp(op=ast.And(), values=vals[:k]), st.test)
+                    rest = vals[k] if k == len(vals) - 1 else _loc(ast.BoolOp(op=ast.And(), values=vals[k:]), st.test)
+                    inner = _loc(ast.If(test=rest, body=st.body, orelse=[]), st)
+                    if self._first(rest) is not None or isinstance(rest, ast.NamedExpr):
+                        st.test = head
+                        st.body = self._stmt(inner)
+                        self.count += 1
+            return pre + [st]
+        if isinstance(st, ast.While) and not st.orelse and (isinstance(st.test, ast.NamedExpr) or self._first(st.test) is not None):
+            holder = ast.If(test=st.test, body=[], orelse=[])
+            pre = self._hoist_first(holder, 'test')
+            brk = _loc(ast.If(test=ast.UnaryOp(op=ast.Not(), operand=holder.test), body=[ast.Break()], orelse=[]), st)
+            st.test = _loc(ast.Constant(value=True), st)
+            st.body = pre + [brk] + st.body
+            return [st]
+        if isinstance(st, (ast.Assign, ast.Expr, ast.Return, ast.AugAssign)) and getattr(st, 'value', None) is not None:
+            pre = self._hoist_first(st, 'value')
+            return pre + [st]
+        return [st]
+
+    # ---- match -------------------------------------------------------------------------------------------------
+    def _pattern_test(self, pat, subj):
+        """-> test expression for a capture-free pattern, True for a wildcard, None when not supported"""
+        def sub():
+            return _clone(subj)
+        if isinstance(pat, ast.MatchValue):
+            v = pat.value
+            if isinstance(v, (ast.Constant, ast.Attribute)) or (isinstance(v, ast.UnaryOp) and isinstance(v.operand, ast.Constant)):
+                return ast.Compare(left=sub(), ops=[ast.Eq()], comparators=[v])
+            return None
+        if isinstance(pat, ast.MatchSingleton):
+            return ast.Compare(left=sub(), ops=[ast.Is()], comparators=[ast.Constant(value=pat.value)])
+        if isinstance(pat, ast.MatchAs) and pat.pattern is None and pat.name is None:
+            return True
+        if isinstance(pat, ast.MatchOr):
+            parts = [self._pattern_test(p, subj) for p in pat.patterns]
+            if any(p is None for p in parts):
+                return None
+            if any(p is True for p in parts):
+                return True
+            if all(isinstance(p.ops[0], ast.Eq) and isinstance(p.comparators[0], ast.Constant) and
+                   isinstance(p.comparators[0].value, str) for p in parts):
+                # x == 'a' or x == 'b'  is  x in ('a', 'b')  for every x (tuple membership tests identity or equality; for a
+                # string literal both agree with ==)
+                return ast.Compare(left=sub(), ops=[ast.In()], comparators=[ast.Tuple(elts=[p.comparators[0] for p in parts], ctx=ast.Load())])
+            return ast.BoolOp(op=ast.Or(), values=parts)
+        return None
+
+    def _match(self, st):
+        subj = st.subject
+        pre = []
+        simple = isinstance(subj, ast.Name) or (isinstance(subj, ast.Attribute) and isinstance(subj.value, ast.Name))
+        if not simple:
+            self.tmp += 1
+            nm = '__match%d' % self.tmp
+            pre.append(_loc(ast.Assign(targets=[ast.Name(id=nm, ctx=ast.Store())], value=subj), st))
+            subj = ast.Name(id=nm, ctx=ast.Load())
+        arms = []
+        for i, c in enumerate(st.cases):
+            last = i == len(st.cases) - 1
+            if isinstance(c.pattern, ast.MatchAs) and c.pattern.pattern is None and c.pattern.name is not None:
+                if not last or c.guard is not None:
+                    return None
+                bind = _loc(ast.Assign(targets=[ast.Name(id=c.pattern.name, ctx=ast.Store())], value=_clone(subj)), c.pattern)
+                arms.append((True, [bind] + c.body, c))
+                continue
+            t = self._pattern_test(c.pattern, subj)
+            if t is None:
+                return None
+            if c.guard is not None:
+                t = c.guard if t is True else ast.BoolOp(op=ast.And(), values=[t, c.guard])
+            arms.append((t, c.body, c))
+        # a subject that is a name re-bound in an arm body is still fine: the remaining tests are never evaluated after a match
+        chain = None
+        for t, body, c in reversed(arms):
+            if t is True:
+                chain = list(body)
+                continue
+            node = ast.If(test=t, body=list(body), orelse=chain or [])
+            _loc(node, c.pattern)
+            chain = [node]
+        if chain is None:
+            return None
+        # arms after an unconditional one are unreachable and were dropped by construction only if they come later: keep exactness
+        seen_true = False
+        for t, _b, _c in arms:
+            if seen_true:
+                return None
+            seen_true = t is True
+        self.count += 1
+        return pre + chain
+
+
+def modern_syntax(tree):
+    """in place; -> number of constructs rewritten"""
+    m = _Modern()
+    m.visit(tree)
+    # module-level and class-level statement lists (function bodies are done by visit_FunctionDef)
+    tree.body = m._block(tree.body)
+    for n in ast.walk(tree):
+        for p in ast.iter_child_nodes(n):
+            p._parent = n
+    ast.fix_missing_locations(tree)
+    return m.count
+
+
+# =====================================================================================================================
+# Read-only properties as methods (package-wide, exact):
+#
+#     @property                          def total(self): ...
+#     def total(self): ...      ==>
+#     ... obj.total ...                  ... obj.total() ...
+#
+# applied to a property name X only when X means nothing else anywhere in the package: no setter / deleter, no other
+# `def X` that is not such a property, no store or delete of an attribute X, no class-level binding of X, no string 'X'
+# handed to getattr / setattr / hasattr / delattr.  Then every load `e.X` either reaches one of the property functions (and
+# calls it, as `e.X()` now does) or raises AttributeError on `e.X` (as `e.X()` does, before evaluating anything else).
+# =====================================================================================================================
+def properties_to_methods(trees):
+    props, other_defs, blocked = {}, set(), set()
+    for t in trees:
+        for n in ast.walk(t):
+            if isinstance(n, (ast.FunctionDef, ast.AsyncFunctionDef)):
+                decos = n.decorator_list
+                if len(decos) == 1 and isinstance(decos[0], ast.Name) and decos[0].id == 'property':
+                    props.setdefault(n.name, []).append(n)
+                else:
+                    other_defs.add(n.name)
+                    for d in decos:
+                        if isinstance(d, ast.Attribute) and d.attr in ('setter', 'deleter', 'getter') and isinstance(d.value, ast.Name):
+                            blocked.add(d.value.id)
+            elif isinstance(n, ast.Attribute) and isinstance(n.ctx, (ast.Store, ast.Del)):
+                blocked.add(n.attr)
+            elif isinstance(n, ast.ClassDef):
+                other_defs.add(n.name)
+                for st in n.body:
+                    for tg in (st.targets if isinstance(st, ast.Assign) else [st.target] if isinstance(st, (ast.AnnAssign, ast.AugAssign)) else []):
+                        for x in ast.walk(tg):
+                            if isinstance(x, ast.Name):
+                                blocked.add(x.id)
+            elif isinstance(n, ast.Call) and isinstance(n.func, ast.Name) and n.func.id in ('getattr', 'setattr', 'hasattr', 'delattr'):
+                for a in n.args[1:2]:
+                    if isinstance(a, ast.Constant) and isinstance(a.value, str):
+                        blocked.add(a.value)
+                    else:
+                        # a computed attribute name could be any name
+                        pass
+    names = {x for x in props if x not in other_defs and x not in blocked}
+    if not names:
+        return 0
+    count = 0
+
+    class T(ast.NodeTransformer):
+        def visit_Attribute(self, node):
+            nonlocal count
+            self.generic_visit(node)
+            if node.attr in names and isinstance(node.ctx, ast.Load):
+                count += 1
+                return _loc(ast.Call(func=node, args=[], keywords=[]), node)
+            return node
+
+    for t in trees:
+        T().visit(t)
+    for x in names:
+        for fn in props[x]:
+            fn.decorator_list = []
+    for t in trees:
+        ast.fix_missing_locations(t)
+    return count
